@@ -30,6 +30,7 @@ type Cfg struct {
 	Ov      [3]string `json:"ov"`   // overrides of public, sensitive, secret: "" (absent) none redact encrypt hmac other
 	Wrap    string    `json:"wrap"` // ok absent failing
 	EncFail []int     `json:"encfail,omitempty"`
+	Ign     bool      `json:"ign,omitempty"` // Filter.IgnoreTypes = {*Ign}
 }
 type Case struct {
 	ID  int    `json:"id"`
@@ -40,6 +41,8 @@ type Case struct {
 	// a history on ONE Filter: the case is its event number Step (0-based); the events before it only set the scene
 	Hist []HistStep `json:"hist,omitempty"`
 	Step int        `json:"step,omitempty"`
+	// ignored values sit where the IgnoreTypes rule applies (outside the model): only the snapshot oracles are evaluated
+	SnapOnly bool `json:"snaponly,omitempty"`
 }
 
 // one event of a history: the override table and (Rot > 0) the wrapper the filter is rotated to before it
@@ -152,6 +155,9 @@ func setOverrides(f *encrypt.Filter, c Cfg) {
 func mkFilter(c Cfg) *encrypt.Filter {
 	f := &encrypt.Filter{HmacSalt: filterSalt, HmacInfo: filterInfo}
 	setOverrides(f, c)
+	if c.Ign {
+		f.IgnoreTypes = []reflect.Type{reflect.TypeOf(&Ign{})}
+	}
 	switch c.Wrap {
 	case "ok":
 		f.Wrapper = newAead("k1")
@@ -175,7 +181,7 @@ func collectInts(v *V, out *[]string) {
 	for _, f := range v.Fields {
 		collectInts(f.V, out)
 	}
-	if v.K == "ptr" {
+	if v.K == "ptr" || v.K == "iface" {
 		collectInts(v.Elem, out)
 	}
 	for _, e := range v.Elems {
@@ -206,7 +212,7 @@ func collectCanaries(v *V, m map[string]int) {
 	for _, f := range v.Fields {
 		collectCanaries(f.V, m)
 	}
-	if v.K == "ptr" {
+	if v.K == "ptr" || v.K == "iface" {
 		collectCanaries(v.Elem, m)
 	}
 	for _, e := range v.Elems {
@@ -413,8 +419,8 @@ func execOn(f *encrypt.Filter, hs *hstate, c Case, n int) (res result) {
 	_, o0 := opOf(c.Cfg.Ov[0])
 	_, o1 := opOf(c.Cfg.Ov[1])
 	_, o2 := opOf(c.Cfg.Ov[2])
-	res.lit = fmt.Sprintf("{| e_id := %s; e_class := %s; e_ov := {| ov_public := %s; ov_sensitive := %s; ov_secret := %s |}; e_wrap := %s; e_key := %s; e_ekey := 2%%N; e_encfail := %s; e_hmacfail := %s;\n   e_payload := %s;\n   e_unchanged := %s; e_obs := %s |}",
-		hc.N(c.ID), hc.N(res.class), o0, o1, o2, hc.B(c.Cfg.Wrap != "absent"), hc.N(keyID), hc.NList(c.Cfg.EncFail), hc.B(c.Cfg.Wrap == "failing"), payloadLit, hc.B(unchanged), obs)
+	res.lit = fmt.Sprintf("{| e_id := %s; e_class := %s; e_ov := {| ov_public := %s; ov_sensitive := %s; ov_secret := %s |}; e_wrap := %s; e_key := %s; e_ekey := 2%%N; e_encfail := %s; e_hmacfail := %s;\n   e_payload := %s;\n   e_unchanged := %s; e_snaponly := %s; e_obs := %s |}",
+		hc.N(c.ID), hc.N(res.class), o0, o1, o2, hc.B(c.Cfg.Wrap != "absent"), hc.N(keyID), hc.NList(c.Cfg.EncFail), hc.B(c.Cfg.Wrap == "failing"), payloadLit, hc.B(unchanged), hc.B(c.SnapOnly), obs)
 	res.nontriv = res.obs == "out" && res.outLit != res.inLit
 	return res
 }
@@ -519,6 +525,38 @@ func genHistories(e *emitter, r *hc.Rand, n int) {
 			h = append(h, st)
 		}
 		e.emitHistory("history", h)
+	}
+}
+
+// Filter.IgnoreTypes = {*Ign}: values of the ignored type behind typed fields and slice elements (the rule applies: left
+// alone) and behind map values and interface-typed fields (the rule is not applied: filtered) - never in the caller's data
+func genIgnore(e *emitter, r *hc.Rand, n int) {
+	g := &gen{r: r}
+	ign := func() *V {
+		return &V{K: "ptr", Elem: &V{K: "hand", Hand: "Ign", Fields: []Field{{Name: "Pub", Tag: sp("public"), V: &V{K: "str", C: g.can()}},
+			{Name: "Sec", Tag: sp("secret"), V: &V{K: "str", C: g.can()}}, {Name: "Unt", V: &V{K: "str", C: g.can()}}}}}
+	}
+	for k := 0; k < n; k++ {
+		g.canary = 0
+		cfg := g.cfg()
+		cfg.Ign = true
+		// (a) only positions where the rule is not applied: the model (which knows no IgnoreTypes) must agree in full
+		free := &V{K: "struct", Fields: []Field{{Name: "F1", Tag: g.tagText(), V: &V{K: "iface", Elem: ign()}},
+			{Name: "F2", V: &V{K: "map", Iface: true, Keys: []string{"k1", "k2"}, Vals: []*V{ign(), {K: "str", C: g.can()}}}}, {Name: "F3", Tag: g.tagText(), V: g.leaf()}}}
+		e.emit(Case{Gen: "ignore", Cfg: cfg, PK: "val", V: &V{K: "ptr", Elem: free}})
+		if k%4 == 0 {
+			e.emit(Case{Gen: "ignore", Cfg: cfg, PK: "val", V: &V{K: "map", Iface: true, Keys: []string{"k1"}, Vals: []*V{ign()}}})
+		}
+		// (b) every kind of position, also the payload itself: snapshot oracles only
+		x := ign()
+		mixed := &V{K: "struct", Fields: []Field{{Name: "F1", V: ign()}, {Name: "F2", V: &V{K: "slice", Elem: x, Elems: []*V{x, ign()}}},
+			{Name: "F3", V: &V{K: "map", Iface: true, Keys: []string{"k1"}, Vals: []*V{ign()}}}, {Name: "F4", V: &V{K: "iface", Elem: ign()}},
+			{Name: "F5", V: &V{K: "map", Keys: []string{"k1"}, Vals: []*V{ign()}}}, {Name: "F6", Tag: sp("secret"), V: &V{K: "str", C: g.can()}}}}
+		e.emit(Case{Gen: "ignore", Cfg: cfg, PK: "val", V: &V{K: "ptr", Elem: mixed}, SnapOnly: true})
+		if k%4 == 1 {
+			e.emit(Case{Gen: "ignore", Cfg: cfg, PK: "val", V: ign(), SnapOnly: true})
+			e.emit(Case{Gen: "ignore", Cfg: cfg, PK: "val", V: &V{K: "slice", Elem: x, Elems: []*V{ign(), ign()}}, SnapOnly: true})
+		}
 	}
 }
 
@@ -645,6 +683,7 @@ func main() {
 	prefix := flag.String("prefix", "cases", "case file prefix")
 	modes := flag.String("modes", "special,tagtable,random", "generators: special tagtable tagtable-full random enum")
 	nRandom := flag.Int("random", 1500, "random trees")
+	nIgn := flag.Int("ignore", 100, "configurations with Filter.IgnoreTypes (mode ignore)")
 	nHist := flag.Int("histories", 200, "histories of events on one filter (mode history)")
 	depth := flag.Int("depth", 4, "max depth of random trees")
 	enumDepth := flag.Int("enum-depth", 2, "depth of the exhaustive enumeration")
@@ -722,6 +761,8 @@ func main() {
 			genRandom(e, r.Fork(), *nRandom, *depth)
 		case "history":
 			genHistories(e, r.Fork(), *nHist)
+		case "ignore":
+			genIgnore(e, r.Fork(), *nIgn)
 		case "enum":
 			n, complete := genEnum(e, *enumDepth, *enumBudget)
 			summary["enum_depth"] = *enumDepth
